@@ -325,6 +325,7 @@ tr!(c06_bc_sibdrop_inclone, hk_c06_bc_sibdrop_inclone, BcT, 6, 1, [1, 1, 1], TrC
 // the same with the sibling's drop ALWAYS inside A's first clone() (a concrete place), then optionally the producer
 tr!(c06_bc_sibdrop_forced, hk_c06_bc_sibdrop_forced, BcT, 6, 1, [2, 1, 1], TrCfg { teardown: false, budget: 3, per_site: 3, pre_send: 2, pre_recv: 1, force: (1, 1, [2, 1, 1, 1]), ..IN_CLONE });
 tr!(c06_bc_sibdrop_forced_n1, hk_c06_bc_sibdrop_forced_n1, BcT, 6, 1, [2, 1, 1], TrCfg { cap: 1, n: 1, teardown: false, budget: 3, per_site: 3, pre_send: 1, pre_recv: 0, force: (1, 1, [2, 1, 1, 1]), ..IN_CLONE });
+tr!(c12_bc_sibdrop_forced, hk_c12_bc_sibdrop_forced, BcT, 6, 1, [2, 1, 1], TrCfg { teardown: false, budget: 3, per_site: 3, pre_send: 2, pre_recv: 1, force: (1, 1, [2, 1, 1, 1]), ..IN_CLONE });
 tr!(c06_bc_sibdrop_all, hk_c06_bc_sibdrop_all, BcB, 6, 1, [1, 1, 1], TrCfg { pre_send: 2, pre_recv: 1, ..QUICK });
 // all preemption sites, instrumented payload, teardown at the end
 tr!(c04_bc_shared_all, hk_c04_bc_shared_all, BcT, 2, 1, [1, 1, 1], TrCfg { pre_send: 2, pre_recv: 1, teardown: true, ..QUICK });
